@@ -70,7 +70,7 @@ def sim_jobs(unames, reals, *, num, depth, seed, opts=None, **kw):
     return results, jobs
 
 
-def history_sims(rep, rng, quick, *, props, reals=("poly-frac", "poly-float"), c10=False, num=None):
+def history_sims(rep, rng, quick, *, props, reals=("poly-frac", "poly-float"), c10=False, num=None, rows_per=50):
     """histories in which objects are moved far away and back between queries and operators
     (far-apart frames of ShapeSys): stale position-dependent caches show up as wrong answers"""
     sims, jobs = sim_jobs(["U2nest", "U2cross"] if quick else ["U2nest", "U2cross", "U2notch", "U3hole"], list(reals),
@@ -93,9 +93,9 @@ def history_sims(rep, rng, quick, *, props, reals=("poly-frac", "poly-float"), c
                 for wd, wm in ((("f1",), "ba"), (("far",), "ab"), (("r1",), "aa")):
                     jobs.append((un, hreals[(k + len(wd[0])) % len(hreals)], replay.history_case(u, row, wd, wm), {"check_c10": False}))
             continue
-        rows = runner.sample(rows, 50 if quick else 600, rng)
+        rows = runner.sample(rows, rows_per if quick else 600, rng)
         for k, row in enumerate(rows):
-            jobs.append((un, hreals[k % len(hreals)], replay.history_case(u, row, words[k % len(words)], warms[(k // len(words)) % 4]), {"check_c10": c10 and k % 4 == 0}))
+            jobs.append((un, hreals[k % len(hreals)], replay.history_case(u, row, words[k % len(words)], warms[(k // len(words)) % 4]), {"check_c10": c10 and k % 6 == 0}))
     res = runner.pool_map(replay.run_case, jobs)
     rep.add_results("hist", res, props=props)
 
@@ -439,7 +439,7 @@ def check_C06(tier, rng, rep):
         # (survey of 6 432 cases: exact, quadratic and cubic realisations satisfy the laws on every
         # universe; float polygons fail on 6 rows of the two-atom universes - the recorded finding -
         # and on some rows of the larger ones; mixed-degree float curves fail on some rows of U3chain)
-        rl = (POLY if un in U2 else ["poly-frac", "poly-int"]) + ["quad-float"] + ([] if quick else ["cubic-float"])
+        rl = (POLY if un in U2 else ["poly-frac", "poly-int"]) + ["quad-float"]
         for k, row in enumerate(runner.sample(rows, 12 if quick else len(rows), rng)):
             for rn in ([rl[k % len(rl)]] if quick else rl):
                 jobs.append((un, rn, replay.pair_case(Universe(un), row), o))
@@ -548,7 +548,7 @@ def check_C10(tier, rng, rep):
     acts = ("make", "mkreg", "bin", "inv", "copy", "invert", "transform", "query", "alias")
     o = {"check_c10": True, "record_obs": True}
     sims, jobs = sim_jobs([rng.choice(U2[2:]), rng.choice(U3)] if quick else U2 + U3, ["poly-frac", "poly-float", "quad-float"] if quick else POLY + CURVED,
-                          num=28 if quick else 120, depth=12, seed=runner.seed() + 10, opts=o,
+                          num=20 if quick else 120, depth=12, seed=runner.seed() + 10, opts=o,
                           acts=acts, gens=GEN_SMALL, maxframe=2, regs=3, maxobj=6, constraint="SimDomain")
     for un, r in sims:
         rep.add_tlc("ShapeSys-sim/" + un, r)
@@ -556,7 +556,7 @@ def check_C10(tier, rng, rep):
     # within a history every deviation from the model is a dependence on earlier calls: an object
     # changed by a call on another one (C08), a stale measure after a transformation (C04/C09)
     rep.add_results("sim", res, props={"C10", "C08", "C04", "C09", "C01", "C03", "C06"})
-    history_sims(rep, rng, quick, props=ALLP | {"C10"}, c10=True, num=100)
+    history_sims(rep, rng, quick, props=ALLP | {"C10"}, c10=True, num=60, rows_per=36)
     # the same behaviours in fresh interpreters: other hash seeds, cold and pre-warmed
     # module-level memo tables; observation logs must be identical
     sub = runner.sample(list(range(len(jobs))), 16 if quick else 120, rng)
